@@ -1,10 +1,12 @@
 #!/bin/bash
 # Re-runs every stored seeded change (seeded/C*) and every harmless refactoring (seeded/harmless/H*) against the current machinery, partitioned over
 # scratch worktrees of /repo (created under /tmp and removed afterwards; /repo itself is not touched), and merges the results into evidence/selftest.json.
-# usage: tools/selftest_all.sh [partitions=3]      (about 3 minutes per change and partition on 16 cores; do not oversubscribe: 3-4 partitions)
+# usage: tools/selftest_all.sh [partitions=3] [egrep pattern on the names]      (about 3 minutes per change and partition on 16 cores; do not oversubscribe: 3-4 partitions)
+# with a pattern the merged result goes to /tmp/selftest_subset.json instead of evidence/selftest.json
 cd "$(dirname "$0")/.."
 n=${1:-3}
-names=( $(ls -d seeded/C* | xargs -n1 basename) $(ls seeded/harmless/H*_patch.diff | xargs -n1 basename | sed 's/_patch.diff//') )
+pat=${2:-.}
+names=( $( (ls -d seeded/C* | xargs -n1 basename; ls seeded/harmless/H*_patch.diff | xargs -n1 basename | sed 's/_patch.diff//') | grep -E "$pat") )
 for ((i=0;i<n;i++)); do
   wt=/tmp/selftest_wt_$i
   git -C /repo worktree remove --force $wt 2>/dev/null
@@ -14,7 +16,8 @@ for ((i=0;i<n;i++)); do
   ( VERIF_REPO=$wt VERIF_BUILD=/tmp/selftest_build_$i python3 tools/selftest.py --out /tmp/selftest_part_$i.json "${part[@]}" > /tmp/selftest_part_$i.log 2>&1 ) &
 done
 wait
-python3 tools/selftest.py --merge $(for ((i=0;i<n;i++)); do echo /tmp/selftest_part_$i.json; done)
+if [ "$pat" != "." ]; then out="--out /tmp/selftest_subset.json"; fi
+python3 tools/selftest.py $out --merge $(for ((i=0;i<n;i++)); do echo /tmp/selftest_part_$i.json; done)
 rc=$?
 for ((i=0;i<n;i++)); do git -C /repo worktree remove --force /tmp/selftest_wt_$i; rm -rf /tmp/selftest_build_$i; done
 exit $rc
